@@ -2,6 +2,7 @@ package props
 
 import (
 	"fmt"
+	"github.com/corazawaf/coraza/v3/experimental"
 	"io"
 	"net/http"
 	"net/http/httptest"
@@ -525,7 +526,12 @@ func c20Exec(e *c20Env, c *c20Case) *c20Run {
 	}
 	var tx types.Transaction
 	if s.Kind != "http" {
-		tx = waf.NewTransactionWithID("c20tx")
+		// every other scenario creates its transaction the way the experimental API documents it (an ID, no Context)
+		if wo, ok := waf.(experimental.WAFWithOptions); ok && len(s.Name)%2 == 0 {
+			tx = wo.NewTransactionWithOptions(experimental.Options{ID: "c20tx"})
+		} else {
+			tx = waf.NewTransactionWithID("c20tx")
+		}
 	}
 	ncalls := len(s.Calls)
 	if c.Mode == "abandon" && c.Stop < ncalls {
